@@ -41,6 +41,13 @@ type c11Ctx struct {
 	keptNames []string
 }
 
+func c11RefNote(ref bool) string {
+	if ref {
+		return "; the condition's value is the reference interpreter's, a fresh engine evaluates it to the opposite"
+	}
+	return ""
+}
+
 func c11Run(c *val.Case, removedLib, removedInst []string, sameDC bool, more ...*facts.State) ([]string, map[string]interface{}, error) {
 	prep, err := val.Prepare(c)
 	if err != nil {
@@ -161,6 +168,7 @@ func c11RunOnCtx(c *val.Case, prep *val.Prepared, kb *ast.KnowledgeBase, removed
 	// expectation from fresh single-rule engines
 	want := map[string]bool{}
 	failing := map[string]bool{}
+	refDecided := map[string]bool{} // the reference interpreter and the fresh engine disagree: the reference decides
 	for _, r := range c.Rules {
 		if removed[r.Name] {
 			continue
@@ -168,10 +176,16 @@ func c11RunOnCtx(c *val.Case, prep *val.Prepared, kb *ast.KnowledgeBase, removed
 		tr, terr := prep.Solo.Truth(r.Name, expSt, expDC)
 		// "fails to evaluate" is also decided by the reference interpreter: a fresh engine shares the
 		// evaluator with the engine under test and would hide a failure that is swallowed there
-		_, rerr := ref.New(before.Copy()).Eval(r.When)
+		rv, rerr := ref.New(before.Copy()).Eval(r.When)
 		if terr != nil || (rerr != nil && !ref.IsUndefined(rerr)) {
 			failing[r.Name] = true
 			continue
+		}
+		// ... and so is the condition's value wherever the reference interpreter gives it one: a comparison or
+		// an operator that is wrong in the evaluator is wrong in the fresh engine as well
+		if rerr == nil && rv.K == ref.KBool && rv.B != tr {
+			refDecided[r.Name] = true
+			tr = rv.B
 		}
 		if tr {
 			want[r.Name] = true
@@ -219,12 +233,12 @@ func c11RunOnCtx(c *val.Case, prep *val.Prepared, kb *ast.KnowledgeBase, removed
 			if removed[n] || (strings.HasPrefix(n, "Deleted_") && !isRule[n]) {
 				v = append(v, fmt.Sprintf("removed rule %s returned", n))
 			} else if !want[n] {
-				v = append(v, fmt.Sprintf("rule %s returned although its condition is not true on the facts (failing: %v)", n, failing[n]))
+				v = append(v, fmt.Sprintf("rule %s returned although its condition is not true on the facts (failing: %v%s)", n, failing[n], c11RefNote(refDecided[n])))
 			}
 		}
 		for n := range want {
 			if got[n] == 0 {
-				v = append(v, fmt.Sprintf("rule %s is satisfied but was not returned", n))
+				v = append(v, fmt.Sprintf("rule %s is satisfied but was not returned%s", n, c11RefNote(refDecided[n])))
 			}
 		}
 		for i := 1; i < len(sal); i++ {
